@@ -13,9 +13,9 @@ B1=$(r cargo build --offline)
 B2=$(r cargo build --offline --no-default-features --features serde)
 S=$(r cargo test --workspace --no-fail-fast --offline); SUITE=$(grep -E "^test result" $O/.log | tr '\n' ';')
 cp $O/demo_$N.rs tests/$DEMO.rs
-DW=$(r cargo test --offline --features verif --test $DEMO); DWL=$(grep -E "^test result|panicked" $O/.log | head -3 | tr '\n' ';' | tr '"' "'")
+DW=$(if [ -n "$DEMO_CMD" ]; then r sh -c "$DEMO_CMD"; else r cargo test --offline ${DEMO_FLAGS:---features verif} --test $DEMO; fi); DWL=$(grep -E "^test result|panicked" $O/.log | head -3 | tr '\n' ';' | tr '"' "'")
 git checkout -q -- . 
-DN=$(r cargo test --offline --features verif --test $DEMO); DNL=$(grep -E "^test result" $O/.log | head -2 | tr '\n' ';')
+DN=$(if [ -n "$DEMO_CMD" ]; then r sh -c "$DEMO_CMD"; else r cargo test --offline ${DEMO_FLAGS:---features verif} --test $DEMO; fi); DNL=$(grep -E "^test result" $O/.log | head -2 | tr '\n' ';')
 rm -f tests/$DEMO.rs
 python3 - <<PY
 import json
